@@ -60,7 +60,20 @@ func (s *sg) newName() string {
 }
 
 func (s *sg) eg() *eg {
-	return &eg{t: s.t, noCalls: s.law == "json", noBigInt: s.law == "json", count: s.r.Exclude, vars: map[string][]string{
+	var bad map[string]string
+	if s.law == "tick" {
+		bad = map[string]string{}
+		for _, v := range s.vars["lnum"] {
+			bad[v] = classT3
+		}
+		for _, v := range s.vars["lbool"] {
+			bad[v] = classT3
+		}
+		for _, v := range s.vars["re"] {
+			bad[v] = classK2
+		}
+	}
+	return &eg{t: s.t, badVars: bad, noCalls: s.law == "json", noBigInt: s.law == "json", nonzero: s.law == "tick", count: s.r.Exclude, vars: map[string][]string{
 		"num":  append(append([]string{}, s.vars["int"]...), append(s.vars["float"], s.vars["lnum"]...)...),
 		"bool": append(append([]string{}, s.vars["bool"]...), s.vars["lbool"]...),
 		"str":  s.vars["str"],
@@ -222,7 +235,11 @@ func (s *sg) lambdaExpr(root string) *Expr {
 }
 
 func (s *sg) argAny() {
-	switch s.pick(4, "anyT") {
+	k := s.pick(4, "anyT")
+	if k == 0 && s.avoided("~any-int") {
+		k = 1
+	}
+	switch k {
 	case 0:
 		s.argInt()
 	case 1:
@@ -230,6 +247,14 @@ func (s *sg) argAny() {
 	case 2:
 		s.argStr()
 	default:
+		if s.law == "tick" {
+			// FALSE is the zero value of bool: dropped by pipeline/tick (T1)
+			if !rapid.Bool().Draw(s.t, "anyBool") {
+				s.r.Exclude(classT1)
+			}
+			s.o.expr(&Expr{K: "bool", V: "TRUE"})
+			return
+		}
 		s.argBool()
 	}
 }
@@ -274,7 +299,11 @@ func (s *sg) argStrings(min, max int, names bool) int {
 }
 
 func (s *sg) argDims() (star bool) {
-	switch s.pick(5, "dims") {
+	k := s.pick(5, "dims")
+	if k <= 1 && s.avoided("~star") {
+		k = 2
+	}
+	switch k {
 	case 0:
 		if s.useVar("star") {
 			return true
@@ -358,10 +387,25 @@ func (s *sg) call(name, kinds string) {
 // families J2 and T2). The generator does not write them for that law and counts each avoided draw.
 var unsupported = map[string]map[string]string{
 	"json": {
+		"|elapsed": "J11 pipeline JSON: MarshalJSON replaces the duration arguments of the live elapsed/holtWinters node by strings (marshalling changes the pipeline)", "|holtWinters": "J11 pipeline JSON: MarshalJSON replaces the duration arguments of the live elapsed/holtWinters node by strings (marshalling changes the pipeline)", "|holtWintersWithFit": "J11 pipeline JSON: MarshalJSON replaces the duration arguments of the live elapsed/holtWinters node by strings (marshalling changes the pipeline)",
+		"~child-of-shadowing-node": "J10 pipeline JSON: children of combine / k8sAutoscale cannot be read back (a struct field named like a chain method, Max/Min, makes the node fail the chain-node interface check)",
+		"|top":    "J8 pipeline JSON: top/bottom read back with count 0 and without their tags (only the args list is restored)",
+		"|bottom": "J8 pipeline JSON: top/bottom read back with count 0 and without their tags (only the args list is restored)",
+		"~any-int": "J7 pipeline JSON: an integer value of an untyped property (default/sideload field, fill, handler attribute) is read back as a float",
+		"|barrier": "J6 pipeline JSON: node kind unknown to Unmarshal: barrier",
+		"|trickle": "J6 pipeline JSON: node kind unknown to Unmarshal: trickle",
+		"|sample": "J5 pipeline JSON: Unmarshal panics on a sample node (Sample(0) is handed an int, not an int64)",
+		"~star": "J4 pipeline JSON: a '*' group-by dimension is read back as a generic map, not a star node",
+		"|queryFlux": "J3 pipeline JSON: node cannot be read back, a duration is written as a string and decoded as a number: queryFlux.period",
+		"|httpPost":  "J3 pipeline JSON: node cannot be read back, a duration is written as a string and decoded as a number: httpPost.timeout",
 		"*.quiet": classJ2 + "quiet (nodes whose embedded chainnode is tagged json:\"-\")",
-		"+groupBy.quiet": "", "+alert.quiet": "", "+barrier.quiet": "", "+combine.quiet": "", "+httpOut.quiet": "", "+httpPost.quiet": "", "+log.quiet": "", "+sideload.quiet": "", "+deadman.quiet": "",
+		"+groupBy.quiet": "", "+alert.quiet": "", "+barrier.quiet": "", "+combine.quiet": "", "+httpOut.quiet": "", "+httpPost.quiet": "", "+log.quiet": "", "+sideload.quiet": "",
 	},
 	"tick": {
+		"alert.discord": classT2 + "alert discord handler", "alert.category": classT2 + "alert.category",
+		"alert.opsGenie2.recoveryAction": classT2 + "opsGenie2.recoveryAction", "alert.opsGenie2.details": classT2 + "opsGenie2.details",
+		"alert.teams": "T6 pipeline/tick renders handlers in a fixed order: a .teams() handler written after .opsGenie()/.opsGenie2() is taken as that handler's teams property",
+		"|holtWintersWithFit": "T5 pipeline/tick renders holtWintersWithFit as holtWinters(field, h, m, interval, TRUE) (rejected: too many arguments)",
 		"*.quiet": classT2 + "quiet (rendered for eval only)", "+eval.quiet": "",
 	},
 }
@@ -432,6 +476,9 @@ func (s *sg) constInt(d int) *Expr {
 		return &Expr{K: "int", V: rapid.SampledFrom(smallInts).Draw(s.t, "ci")}
 	}
 	op := rapid.SampledFrom([]string{"+", "-", "*", "/", "%"}).Draw(s.t, "ciOp")
+	if s.law == "tick" && op != "*" {
+		op = "+" // the value must not become zero (T1)
+	}
 	l := s.constInt(d - 1)
 	var r *Expr
 	if op == "/" || op == "%" {
@@ -448,6 +495,9 @@ func (s *sg) constFloat(d int) *Expr {
 		return &Expr{K: "flt", V: rapid.SampledFrom([]string{"1.0", "0.5", ".5", "2.", "3.25", "10.0", "001.5"}).Draw(s.t, "cf")}
 	}
 	op := rapid.SampledFrom([]string{"+", "-", "*", "/"}).Draw(s.t, "cfOp")
+	if s.law == "tick" && op == "-" {
+		op = "+"
+	}
 	return g.paren(&Expr{K: "bin", Op: op, A: []*Expr{s.constFloat(d - 1), s.constFloat(d - 1)}})
 }
 
@@ -456,7 +506,11 @@ func (s *sg) constDur(d int) *Expr {
 	if d <= 0 || s.pick(3, "cdLeaf") == 0 {
 		return g.durLit()
 	}
-	switch s.pick(4, "cdOp") {
+	k := s.pick(4, "cdOp")
+	if s.law == "tick" && (k == 1 || k == 3) {
+		k = 0 // no zero and no sub-microsecond values
+	}
+	switch k {
 	case 0:
 		return g.paren(&Expr{K: "bin", Op: "+", A: []*Expr{s.constDur(d - 1), s.constDur(d - 1)}})
 	case 1:
@@ -636,6 +690,9 @@ func (s *sg) templateDecl() {
 	switch typ {
 	case "int":
 		v.Val = strconv.Itoa(rapid.IntRange(-5, 100).Draw(s.t, "tmplInt"))
+		if v.Val == "0" && s.law == "tick" {
+			v.Val = "4"
+		}
 		s.vars["int"] = append(s.vars["int"], name)
 	case "float":
 		v.Val = rapid.SampledFrom([]string{"0.5", "1", "-2.25", "1e21", "3.0000000000000004"}).Draw(s.t, "tmplFloat")
@@ -645,12 +702,18 @@ func (s *sg) templateDecl() {
 		s.vars["bool"] = append(s.vars["bool"], name)
 	case "string":
 		v.Val = rapid.SampledFrom(strPool).Draw(s.t, "tmplStr")
+		if s.law == "tick" && (v.Val == "" || strings.HasSuffix(v.Val, `\`)) {
+			v.Val = "nz"
+		}
 		s.vars["str"] = append(s.vars["str"], name)
 	case "regex":
 		v.Val = rapid.SampledFrom(regexPool).Draw(s.t, "tmplRe")
 		s.vars["re"] = append(s.vars["re"], name)
 	case "duration":
 		v.Val = strconv.FormatInt(int64(rapid.SampledFrom([]int64{0, 1000, 1500000, 1e9, 90e9, 3600e9, -5e9}).Draw(s.t, "tmplDur")), 10)
+		if v.Val == "0" && s.law == "tick" {
+			v.Val = "2000"
+		}
 		s.vars["dur"] = append(s.vars["dur"], name)
 	case "lambda":
 		o := newOut(s.t, 0, false)
@@ -746,11 +809,21 @@ var simpleNodes = []nodeSpec{
 	{"trickle", "", "b", "s", nil},
 }
 
+var customNodes = map[int]string{22: "window", 23: "window", 24: "eval", 25: "eval", 26: "groupBy", 27: "alert", 28: "alert", 29: "alert", 30: "sample",
+	31: "influxql", 32: "influxql", 33: "combine", 34: "barrier", 35: "httpPost", 36: "kapacitorLoopback", 37: "deadman", 38: "k8sAutoscale", 39: "join-union"}
+
 func (s *sg) node(edge string) (out string) {
 	t := s.t
 	out = edge
 	s.last = nil
 	k := s.pick(40, "nodeKind")
+	name := customNodes[k]
+	if k < len(simpleNodes) {
+		name = simpleNodes[k].name
+	}
+	if s.avoided("|" + name) {
+		return s.node(edge)
+	}
 	switch {
 	case k < len(simpleNodes):
 		ns := simpleNodes[k]
@@ -872,6 +945,9 @@ func (s *sg) node(edge string) (out string) {
 		s.o.rparen()
 		s.someProps([]prop{{"tolerance", "d"}, {"max", "i"}, {"delimiter", "s"}}, 2)
 		out = "s"
+		if s.avoided("~child-of-shadowing-node") {
+			out = "-"
+		}
 	case k == 34:
 		s.pipe()
 		s.call("barrier", "")
@@ -909,6 +985,7 @@ func (s *sg) node(edge string) (out string) {
 			s.argLambda("bool")
 		}
 		s.o.rparen()
+		s.cur = "alert" // deadman returns the alert node it builds
 		s.someProps(alertProps, 2)
 		out = "s"
 	case k == 38:
@@ -922,6 +999,9 @@ func (s *sg) node(edge string) (out string) {
 		s.prop(prop{"replicas", "ln"})
 		s.someProps([]prop{{"min", "i"}, {"max", "i"}, {"increaseCooldown", "d"}, {"decreaseCooldown", "d"}, {"namespace", "s"}, {"currentField", "n"}}, 2)
 		out = "s"
+		if s.avoided("~child-of-shadowing-node") {
+			out = "-"
+		}
 	default:
 		// join / union with previously declared node vars of the same edge
 		var cands []nodeVar
@@ -1014,7 +1094,7 @@ func (s *sg) source() (edge string) {
 	}
 	s.id("batch")
 	s.pipe()
-	if s.pick(5, "flux") == 0 {
+	if s.pick(5, "flux") == 0 && !s.avoided("|queryFlux") {
 		s.id("queryFlux")
 		s.o.lparen()
 		s.o.strLit("from(bucket: \"b\") |> range(start: -1m)", s.pick(2, "fluxTQ") == 0)
